@@ -443,6 +443,7 @@ type vsCase struct {
 	runCancel                    context.CancelFunc
 	runDone                      chan struct{}
 	runReturned                  bool // guarded by mu
+	probeRecs                    []string
 	recHang, recJudged           bool // recJudged: judge() ran (the counters are final)
 	recSsess, recCsess, recSubs int
 	nsubh int // SubscribeHandler invocations (guarded by mu)
@@ -2184,24 +2185,8 @@ func (c *vsCase) judge() {
 	c.judgeCalls()
 	c.judgeWire()
 	c.judgeOrder()
-	// C05: a graceful Close lets running handlers finish. Without an injected fault a handler's context is
-	// cancelled by its caller (cause context.Canceled) or, once the PEER has closed the transport, by the
-	// reader's EOF / a failing write; never while both transports are still open.
-	c.mu.Lock()
-	fe := c.faultEver
-	c.mu.Unlock()
-	if !fe {
-		for _, h := range c.hlist {
-			if h.ctxErr != "" && h.cause != "context-canceled" && h.bothOpen {
-				c.viol("C05: the context of a running %s handler (%s) was cancelled with cause %s while both transports were open and no fault was injected: a graceful Close must let running handlers finish", vsSideName[h.side], h.kind, h.cause)
-			}
-		}
-	}
-	for _, h := range c.hlist {
-		if h.runs > 1 {
-			c.viol("C02: the handler of one message (%s %s) ran %d times", vsSideName[h.side], h.kind, h.runs)
-		}
-	}
+	// C05 "a graceful Close lets running handlers finish" and C02 "the handler of one message runs once":
+	// recorded per handler (extraRec) and decided by the typed Lean monitor SessMon.extraMon
 }
 
 func (c *vsCase) postMortem() {
@@ -2238,13 +2223,36 @@ func (c *vsCase) postMortem() {
 	synctest.Wait()
 	c.mu.Lock()
 	defer c.mu.Unlock()
+	// recorded (extraRec: p:…) and decided by the typed Lean monitor SessMon.extraMon (P_probe)
 	for _, p := range ps {
-		if !p.done {
-			c.viols = append(c.viols, fmt.Sprintf("C01: %s started after Wait had returned is blocked instead of failing at once", p.name))
-		} else if !errors.Is(p.err, ErrConnectionClosed) {
-			c.viols = append(c.viols, fmt.Sprintf("C01: %s started after Wait had returned ended with %s, not with ErrConnectionClosed", p.name, vsErrClass(p.err)))
+		cls := ""
+		if p.done {
+			cls = vsErrClass(p.err)
 		}
+		c.probeRecs = append(c.probeRecs, fmt.Sprintf("p:%s:%s:%s:%s", hxs(p.name), vsB(p.done), vsB(p.done && errors.Is(p.err, ErrConnectionClosed)), hxs(cls)))
 	}
+}
+
+func vsB(x bool) string {
+	if x {
+		return "1"
+	}
+	return "0"
+}
+
+// extraRec prints the handler runs and the probes started after termination (SessClose/Calls.lean: ExtraObs).
+func (c *vsCase) extraRec() string {
+	c.mu.Lock()
+	defer c.mu.Unlock()
+	if !c.recJudged {
+		return "-"
+	}
+	out := []string{"fe=" + vsB(c.faultEver)}
+	for _, h := range c.hlist {
+		out = append(out, fmt.Sprintf("h:%s:%s:%d:%s:%s:%s", hxs(vsSideName[h.side]), hxs(h.kind), h.runs, vsB(h.ctxErr != ""), hxs(h.cause), vsB(h.bothOpen)))
+	}
+	out = append(out, c.probeRecs...)
+	return strings.Join(out, " ")
 }
 
 // judgeCalls: the per-call clauses of C01 / C04 are decided by the typed Lean monitor SessMon.callMon
@@ -2558,7 +2566,7 @@ func vsRunCase(t *testing.T, out *verifOut, id string, seed int64, idx int) {
 	} else {
 		c.tag("violation")
 	}
-	out.line(id, c.op(), obs+" ## "+c.rec()+" ## "+c.callsRec()+" ## "+c.orderRec(), c.tagList()...)
+	out.line(id, c.op(), obs+" ## "+c.rec()+" ## "+c.callsRec()+" ## "+c.orderRec()+" ## "+c.extraRec(), c.tagList()...)
 	out.flush()
 	if vsDebug {
 		fmt.Fprintf(os.Stderr, "== %s\n%s\n=> %s\n", c.op(), strings.Join(c.trace, "\n"), obs)
